@@ -132,6 +132,25 @@ def _artifact(ctx, F):
         ctx.bad('FLOW-C14b', fn, 'the vectors already in the index are not carried into the rebuilt index', detail='existing-not-copied')
     if not new:
         ctx.bad('FLOW-C14b', fn, 'the new documents are not added to the rebuilt index', detail='new-not-added')
+    # rebuild_indexes keeps the *old* vector manifest when build_vec_artifact answers None and vectors are enabled (it takes
+    # None to mean "disabled"): so None may be returned only on the edge where vec_enabled is false - an enabled index that
+    # has become empty must still be written, otherwise the manifest of the previous (populated) artifact is persisted again
+    none_rets = [ex for ex in fn.ret_assignments() if ex['kind'] in ('ok', 'other') and ex.get('rv') is not None and
+                 'Option::None' in lib.slice_back(fn, lib.rv_operands(ex['rv']), through_calls=False, at=(ex['bb'], ex['idx'])).aggs]
+    dis_edges = []
+    for bs in lib.bool_switches(fn):
+        sl = lib.slice_back(fn, [{'c': {'l': bs['local'], 'p': []}}], through_calls=False, at=(bs['bb'], None))
+        if sl.has_field('Memvid', 'vec_enabled'):
+            dis_edges.append((bs['bb'], bs['t_true'] if 'Not' in sl.ops else bs['t_false']))
+    ctx.evaluations += len(none_rets)
+    if not none_rets or not dis_edges:
+        ctx.lost('FLOW-C14b', 'build_vec_artifact: the `vectors disabled -> None` exit was not found (None returns %d, vec_enabled tests %d)' % (len(none_rets), len(dis_edges)))
+    for ex in none_rets:
+        if any(lib.edge_dominates(fn, b, t, ex['bb']) for b, t in dis_edges):
+            ctx.ok('FLOW-C14b', fn, 'None is returned only where vectors are disabled', line=ex['line'])
+        else:
+            ctx.bad('FLOW-C14b', fn, 'build_vec_artifact can answer None while vectors are enabled: rebuild_indexes then keeps the previous vector manifest, so after the last embedded frame is '
+                    'deleted the old artifact (with the deleted vectors) is what a reopen loads', line=ex['line'], sink='Toc.indexes.vec', detail='none-while-enabled')
     rb = ctx.need('FLOW-C14b', 'Memvid::rebuild_indexes')
     if rb is not None:
         ctx.touch(rb, len(rb.blocks))
